@@ -11,6 +11,7 @@ def encode(items, seed):
     rng = random.Random(seed)
     for it in items:
         it["explicit"] = rng.random() < 0.3
+        it["reuse"] = rng.random() < 0.3       # the fit().transform() estimator has a past (fitted on something else and used)
     return items
 
 
